@@ -268,20 +268,28 @@ theorem reaction_completes (p : Policy) (as : List Action) (perm : List Nat) :
   rw [joinerStep_none_iff _ perm hg.fixed]
   exact runAll_quiescent _ as (good_init p) (by simp [G.Quiescent, init])
 
+/-- no `next_done()` caller at all: full semaphore accounting incl. `popped = joinPopped` -/
 theorem ninv_reachable (p : Policy) (as : List Action) (hnc : ∀ a ∈ as, a.isNextDone = false) :
-    NInv (runAll (init p) as).1 :=
+    NInv true (runAll (init p) as).1 :=
   ninv_runAll _ as hnc (good_init p) (ninv_init p)
+
+/-- `next_done()` callers that never had to wait: the accounting still holds -/
+theorem ninv_reachable_noParking (p : Policy) (as : List Action) (hnp : NoParking (init p) as) :
+    NInv false (runAll (init p) as).1 :=
+  ninv_runAll_noParking _ as hnp (good_init p) (ninv_init p)
 
 theorem jinv_reachable (p : Policy) (as : List Action) : JInv (runAll (init p) as).1 :=
   jinv_runAll _ as (good_init p) (jinv_init p)
 
-/-- **No stuck state** (histories without a competing `next_done()` caller).  After any
-reaction, a joiner that has not exited is waiting for a member that has not finished:
-either it is parked in the `next_done` loop and some *pending* (non-daemon, unfinished) member
-exists, or it is in `cancel_remaining()` / the clean-up awaiting a snapshot of cancelled members
-of which one has not finished. -/
-theorem joiner_waits_only_for_unfinished (p : Policy) (as : List Action)
-    (hnc : ∀ a ∈ as, a.isNextDone = false) (j : Joiner)
+/-- **No stuck state.**  In a history in which no other task ever had to *wait* in
+`next_done()` (`NoParking`: callers that are served at once are allowed - exactly the situation
+of F12, a caller parked on the semaphore, is excluded), after any reaction a joiner that has not
+exited is waiting for a member that has not finished: either it is parked in the `next_done`
+loop and some *pending* (non-daemon, unfinished) member exists, or it is in
+`cancel_remaining()` / the clean-up awaiting a snapshot of cancelled members of which one has
+not finished. -/
+theorem joiner_waits_only_for_unfinished_of_noParking (p : Policy) (as : List Action)
+    (hnp : NoParking (init p) as) (j : Joiner)
     (hj : (runAll (init p) as).1.joiner = some j) (hne : j.phase ≠ .exited) :
     (j.phase = .next ∧ j.blocked = true ∧
       ∃ m ∈ (runAll (init p) as).1.mem, m.id ∈ (runAll (init p) as).1.pending ∧
@@ -290,7 +298,7 @@ theorem joiner_waits_only_for_unfinished (p : Policy) (as : List Action)
       ∃ snap, j.snapshot = some snap ∧
         ∃ m ∈ (runAll (init p) as).1.mem, m.id ∈ snap ∧ m.status ≠ .done) := by
   have hg := good_reachable p as
-  have hn := ninv_reachable p as hnc
+  have hn := ninv_reachable_noParking p as hnp
   have hji := jinv_reachable p as
   have hq : (runAll (init p) as).1.Quiescent :=
     runAll_quiescent _ as (good_init p) (by simp [G.Quiescent, init])
@@ -319,6 +327,29 @@ theorem joiner_waits_only_for_unfinished (p : Policy) (as : List Action)
       have hf : g.find i = some m := by rw [← hid]; exact find_of_mem hg.tinv.nodup hm
       have := hi.2
       simp [G.isDone, G.statusOf, hf, hd] at this
+
+/-- the same for histories without any `next_done()` caller (no `Action.nextDone`) -/
+theorem joiner_waits_only_for_unfinished (p : Policy) (as : List Action)
+    (hnc : ∀ a ∈ as, a.isNextDone = false) (j : Joiner)
+    (hj : (runAll (init p) as).1.joiner = some j) (hne : j.phase ≠ .exited) :
+    (j.phase = .next ∧ j.blocked = true ∧
+      ∃ m ∈ (runAll (init p) as).1.mem, m.id ∈ (runAll (init p) as).1.pending ∧
+        m.daemon = false ∧ m.status ≠ .done) ∨
+    ((j.phase = .cancelrem ∨ j.phase = .fin) ∧
+      ∃ snap, j.snapshot = some snap ∧
+        ∃ m ∈ (runAll (init p) as).1.mem, m.id ∈ snap ∧ m.status ≠ .done) :=
+  joiner_waits_only_for_unfinished_of_noParking p as (noParking_of_noNextDone _ as hnc) j hj hne
+
+/-- `NoParking` is observable: a caller has to wait exactly when the action reports
+`nextDoneBlocked`; here a caller that is served at once, before `join()` starts -/
+example :
+    NoParking (init .all) [.spawn 0 false [], .finish 0 .val [], .nextDone 7 [], .spawn 1 false [],
+      .join [], .finish 1 .val []] ∧
+    (runAll (init .all) [.spawn 0 false [], .finish 0 .val [], .nextDone 7 [], .spawn 1 false [],
+      .join [], .finish 1 .val []]).1.joined = true := by
+  refine ⟨?_, by decide⟩
+  simp only [NoParking, Action.isNextDone]
+  decide
 
 /-- non-vacuity of both alternatives: parked in the loop waiting for member 1; in the clean-up
 waiting for the slow member 0 -/
